@@ -221,10 +221,16 @@ def gen_float(rng):
 
 
 def gen_date(rng):
-    """Naive datetime (LLSD: UTC) 1970..2100; sub-second part mostly zero, sometimes milli/microseconds.
+    """Naive datetime (LLSD: UTC) 1901..2100; sub-second part mostly zero, sometimes milli/microseconds.
     Times inside DST gaps of the test zones are included on purpose (they are ordinary UTC instants)."""
     c = rng.random()
-    if c < 0.15:
+    if c < 0.2:
+        # before the epoch: negative timestamps, mostly with a fractional second
+        base = rng.choice([EPOCH - datetime.timedelta(seconds=rng.choice([1, 2, 59, 86400, 86401, 14182940, rng.randrange(1, 2145916800)])),
+                           datetime.datetime(1969, 12, 31, 23, 59, 59), datetime.datetime(1901, 12, 13, 20, 45, 52)])
+        us = rng.choice([500000, 250000, 750000, 999999, 1, 0, rng.randrange(1000) * 1000, rng.randrange(1000000)])
+        return base.replace(microsecond=us)
+    if c < 0.33:
         base = rng.choice([EPOCH, datetime.datetime(2020, 1, 1, 12, 0), datetime.datetime(2021, 3, 14, 7, 30, 15),
                            datetime.datetime(2021, 3, 14, 2, 30), datetime.datetime(2021, 11, 7, 1, 30),
                            datetime.datetime(2038, 1, 19, 3, 14, 8), datetime.datetime(2099, 12, 31, 23, 59, 59)])
@@ -386,9 +392,7 @@ def form_events(val, forms, pv=None):
                 ev["exc"] = "zlib: %s" % e
             ev["out"] = list(raw)
             if form == "not":
-                ev["rt"] = real_table(raw)
-            else:
-                ev["dt"] = date_table(raw)
+                ev["rt"] = real_table(raw)      # (binary dates need no table any more: TLC decodes the double itself)
         evs.append(ev)
     return evs
 
@@ -537,8 +541,11 @@ def _codec_table(chk: Check, big: bool):
             st, got = impl_call(fn, inp)
             if st != "ok" or proj(got) != v:
                 cls = "other"
-                if st == "ok" and _leaf_diffs(v, proj(got)) and all(d[0] == "leaf" and d[1] == d[2] == "date" for d in _leaf_diffs(v, proj(got))):
-                    cls = "date-usec-truncated"
+                diffs = _leaf_diffs(v, proj(got)) if st == "ok" else []
+                if diffs and what in ("parse_notation", "parse(notation document)") and all(
+                        d[0] == "leaf" and d[1] == d[2] == "date" and
+                        datetime.datetime(*d[3]) - datetime.datetime(*d[4]) == datetime.timedelta(microseconds=1) for d in diffs):
+                    cls = "date-usec-truncated"     # exactly the registered finding: one microsecond low through the text date parser
                 chk.violation("table: %s differs from specification" % what,
                               {"kind": "llsd-table", "op": what, "class": cls},
                               {"value": common._clip(v), "input": inp.decode("latin-1")[:300], "impl": repr(got)[:300]})
@@ -1336,8 +1343,9 @@ def run(chk: Check):
         "message profiles: a Variable block may have zero instances; a suffix of the template's blocks may be omitted altogether "
         "(trailing blocks are routinely omitted; an addon-built message may lack them); 'other' = a message of the next template",
         "messages: built from the template with plain Python values; every third one is additionally passed through the library's own UDP encoder/decoder first (values as the proxy holds them)",
-        "naive datetimes denote UTC instants (LLSD convention; what the notation/XML codecs assume); aware datetimes only through the binary forms; dates 1970..2100",
-        "opaque leaves (IEEE doubles, binary dates, real texts) are decoded by Python's struct/float/fractions, never by Hippolyzer",
+        "naive datetimes denote UTC instants (LLSD convention; what the notation/XML codecs assume); aware datetimes only through the binary forms; dates 1901..2100 (before and after the epoch)",
+        "opaque leaves (IEEE doubles of reals, real texts) are decoded by Python's struct/float, never by Hippolyzer; binary dates are "
+        "decoded by TLC itself (exact integer-microsecond arithmetic on the double's bits)",
     ]
     pend = Pending(chk)
     direct = chk.violation
